@@ -189,6 +189,9 @@ def judge(name, recogniser, behaviour_valid, outcome, msgs, log, delivered, fuzz
     return problems
 
 
+RUN_BUDGET_S = 40
+
+
 # ------------------------------------------------------------------------------------------------ the family of runs
 
 def cases_one(tier, rnd):
@@ -290,6 +293,7 @@ def run(tier="quick", seed=0, pid="C20", only=None):
     logging.disable(logging.CRITICAL)
     t0 = time.time()
     evaluations, distinct, samples, violations, seen = 0, set(), [], [], set()
+    over_budget = 0
     cwd = os.getcwd()
     try:
         with open(os.devnull, "w") as null, contextlib.redirect_stderr(null), contextlib.redirect_stdout(null if only is None else sys.stdout):
@@ -300,7 +304,13 @@ def run(tier="quick", seed=0, pid="C20", only=None):
                         continue
                     for rep in range(2 if tier == "quick" else 5):       # (the fuzzer's own messages are random: a few runs per case)
                         random.seed(seed * 1000 + rep)
-                        outcome, msgs, log, delivered = run_once(spec, reply)
+                        from bounded.c04_c05 import with_budget
+                        res, over = with_budget(lambda: run_once(spec, reply), RUN_BUDGET_S)
+                        if over:
+                            # (a run that does not end within the budget is counted and NOT judged: a timeout is never a violation)
+                            over_budget += 1
+                            continue
+                        outcome, msgs, log, delivered = res
                         evaluations += 1
                         distinct.add((spec_name, label, repr(log[:1])))
                         if len(samples) < 8 and rep == 0:
@@ -324,7 +334,7 @@ def run(tier="quick", seed=0, pid="C20", only=None):
                  "prefix of the protocol with correct attribution, sends == recorded fuzzer messages, recorded remote data == delivered "
                  "data, valid peer => complete run, bad remote message never recorded; distinct = (spec, behaviour, first sent message)"),
         "bound": "2 specs, 2 (5) runs per case, single-threaded in-process parties; sockets, threads and timing are outside", "samples": samples,
-        "violations": violations, "wall_s": round(time.time() - t0, 1),
+        "violations": violations, "runs_over_budget_not_judged": over_budget, "wall_s": round(time.time() - t0, 1),
     }
 
 
